@@ -61,12 +61,20 @@ def gen(args) -> list:
             evs.append(ev)
     for _ in range(nnav):
         cal = rnd.choice(cals)
-        n = rnd.randint(cal._min_days + 8, cal._max_days - 8)
+        cc = rnd.random()
+        n = cal._max_days - rnd.randint(0, 7) if cc < 0.15 else cal._min_days + rnd.randint(0, 7) if cc < 0.3 else rnd.randint(cal._min_days, cal._max_days)
         d = LocalDate._ctor(days_since_epoch=n, calendar=cal)
         dow = IsoDayOfWeek(rnd.randint(1, 7))
-        evs.append({"op": "nav", "n": n, "dow": int(dow), "next": d.next(dow)._days_since_epoch, "previous": d.previous(dow)._days_since_epoch,
-                    "next_or_same": DateAdjusters.next_or_same(dow)(d)._days_since_epoch,
-                    "previous_or_same": DateAdjusters.previous_or_same(dow)(d)._days_since_epoch})
+        ev = {"op": "nav", "n": n, "dow": int(dow), "min_day": cal._min_days, "max_day": cal._max_days}
+        for name, fn in (("next", lambda: d.next(dow)), ("previous", lambda: d.previous(dow)),
+                         ("next_or_same", lambda: DateAdjusters.next_or_same(dow)(d)), ("previous_or_same", lambda: DateAdjusters.previous_or_same(dow)(d))):
+            try:
+                ev[name] = fn()._days_since_epoch
+                ev[name + "_raised"] = False
+            except Exception:  # noqa: BLE001
+                ev[name] = 0
+                ev[name + "_raised"] = True
+        evs.append(ev)
         y, m, occ = rnd.choice([1, 9999, rnd.randint(1, 9999), rnd.randint(-9998, 9999)]), rnd.randint(1, 12), rnd.randint(1, 5)
         ev = {"op": "nth", "y": y, "m": m, "occ": occ, "dow": int(dow)}
         try:
